@@ -187,7 +187,12 @@ func DecodeIdFromList(cborData []byte) (int, error) {
 	if listLen == 0 {
 		return 0, errors.New("cannot return first item from empty list")
 	}
-	if listLen < int(CborMaxUintSimple) {
+	// The shortcut is only valid when the list header is a single byte
+	// (definite length <= 23 or indefinite length): only then is byte 1 the
+	// first list item rather than part of a multi-byte length
+	singleByteHeader := cborData[0] <= (CborTypeArray+CborMaxUintSimple) ||
+		cborData[0] == (CborTypeArray|0x1f)
+	if listLen < int(CborMaxUintSimple) && singleByteHeader {
 		if cborData[1] <= CborMaxUintSimple {
 			return int(cborData[1]), nil
 		}
